@@ -176,10 +176,16 @@ func (r *rawProto) writeHeader(bb *utils.ByteBuffer, m Message) error {
 	bb.WriteByte(byte(serviceMethodLength))
 	bb.Write(serviceMethod)
 	statusBytes := m.Status(true).EncodeQuery()
+	if len(statusBytes) > math.MaxUint16 {
+		return errors.New("raw proto: not support status longer than 65535")
+	}
 	binary.Write(bb, binary.BigEndian, uint16(len(statusBytes)))
 	bb.Write(statusBytes)
 
 	metaBytes := m.Meta().QueryString()
+	if len(metaBytes) > math.MaxUint16 {
+		return errors.New("raw proto: not support metadata longer than 65535")
+	}
 	binary.Write(bb, binary.BigEndian, uint16(len(metaBytes)))
 	bb.Write(metaBytes)
 	return nil
